@@ -236,6 +236,16 @@ def codec(pid, technique, level_text, rule, floors, budget_quick=30, budget_thor
         release_pass=True, miri=False, assumptions=CODEC_ASSUME, crash_is_violation=True, **kw)
 
 
+CHECKS["C20"] = dict(
+    level="exploration",
+    technique="clause-by-clause monitor on TransactionBuilder::build_transaction for generated wallets: own sat-offset walk through inputs and outputs, own virtual-size formula and fee rounding, cardinal-only input check, dust and change-script checks; panics caught and named by assertion and enclosing function; checked and release builds",
+    level_text="Exploration over inputs: millions of generated wallets per run (1-12 UTXOs from 294 sat to 21M BTC, 0-5 inscriptions at any offset incl. stale ones, runic / locked subsets, outgoing satpoint inscribed / arbitrary / out of range / foreign, recipients P2TR/P2WPKH/P2WSH/P2PKH/P2SH/OP_RETURN/future witness/non-address/own change, change addresses of equal and different types, fee rates 0, subnormal, fractional, .5 products, 1-10^4, up to f64::MAX, targets Postage / Value / ExactPostage with amounts at every dust limit, 0, wallet total, u64::MAX). Sampled, not exhaustive.",
+    rule="for every Ok(tx): inputs are wallet outputs, spent once, outgoing output among them; outgoing sat position (sum of earlier inputs + offset) = start of the single recipient output; every other inscription of a spent output lands in a non-recipient output (not in fees); no other input is runic, locked or inscribed; other outputs pay one of the two change scripts; no output below its script's dust limit; fee = round(rate x vsize with 64-byte witnesses) with vsize from the serialisation rules; Value(v): recipient >= v, Postage: <= 20000 + fee(43 vB), ExactPostage(p): <= p + fee(43 vB). Err is always accepted; a panic is a violation. distinct = (inputs, outputs, target, burn, inscriptions, fee-rate decade) tuples and error classes.",
+    floors={"evaluations": 500000, "built_ok": 100000, "built_value": 20000, "built_exact-postage": 20000, "built_postage": 20000, "built_with_alignment_and_change": 20000, "built_with_three_or_more_inputs": 2000, "built_with_other_inscription_in_outgoing_output": 2000, "error_NotEnoughCardinalUtxos": 1000, "error_UtxoContainsAdditionalInscriptions": 1000},
+    shards_quick=16, budget_quick=20, shards_thorough=16, budget_thorough=300, release_pass=True, miri=False,
+    assumptions=["the builder is driven through its public constructor exactly as the wallet commands do; wallet scripts are P2TR/P2WPKH (fee estimation assumes key-path taproot inputs)", "checked build (overflow checks + debug assertions); the thorough tier repeats the workload on a release build"],
+    crash_is_violation=True)
+
 codec("C27",
       "round-trip monitor: generated Inscription values written with ord's reveal-script builder (one or several per script, several inputs, arbitrary script prefix/suffix, five witness shapes incl. annex) and parsed back with ParsedEnvelope::from_transaction; independent encoders for the compact pointer / id / rune-commitment values; totality monitor on damaged scripts and random witnesses (every accessor of the result is called); a dead shard process (stack overflow, allocation failure) is a violation",
       "Exploration over field combinations and sizes (1, 75/76, 255/256, 519-521, 1039-1041, 65535/65536, up to 400 kB; values that look like script), 0-8 inscriptions per script, 1-3 inputs; pointer and index byte-length boundaries enumerated. Witness bytes are sampled (8 hostile script classes), not enumerated.",
@@ -262,7 +272,7 @@ codec("C35",
 # 16-core run and had only a 2-4x margin (a loaded machine tripped C01's block
 # floor once). Keep them roughly an order of magnitude below an unloaded run.
 for _c in CHECKS.values():
-    if _c["assumptions"] is not PURE_ASSUME and _c["assumptions"] is not CODEC_ASSUME:
+    if _c["assumptions"] is CHAIN_ASSUME or _c["assumptions"] is DRIVER_ASSUME:
         _c["floors"] = {k: max(1, v // 4) for k, v in _c["floors"].items()}
 
 
